@@ -114,7 +114,8 @@ func c13Run(c *core.Case, o *core.Outcome) {
 		}
 		k := 0
 		cur := 0
-		rateFn := func(time.Time) int { cur = seqAt(k); k++; return cur }
+		var askedFor time.Time
+		rateFn := func(t time.Time) int { askedFor = t; cur = seqAt(k); k++; return cur }
 		fn := api.WithJitter(rateFn, j)
 		jm := j / 100
 		b, M := 0.0, 0.0
@@ -180,6 +181,11 @@ func c13Run(c *core.Case, o *core.Outcome) {
 		for i := 0; i < length; i++ {
 			y := fn(tsAt(i))
 			rk := float64(cur)
+			if fileStage == "" && !askedFor.Equal(tsAt(i)) {
+				// the rate is the rate of this tick's instant, whatever instants were seen before
+				o.Violate("jitter-instant:"+desc, "tick %d is for the instant %v, the underlying rate was evaluated for %v (%s)", i, tsAt(i).UTC(), askedFor.UTC(), desc)
+				return
+			}
 			if k != i+1 {
 				o.Violate("jitter-calls:"+desc, "underlying rate evaluated %d times after %d ticks (%s)", k, i+1, desc)
 				return
